@@ -61,8 +61,8 @@ theorem rest_not_mem_tc (h : RootAt f X tc Y) {p : Nat} (hp : p ∈ handlesList 
 
 theorem get?_self (h : RootAt f X tc Y) : f.get? tc.handle = some tc := by
   unfold Forest.get?
-  rw [h.roots, findList?_append_of_not_mem _ _ _ (h.not_mem_X _ (handle_mem_handles_ff tc))]
-  exact findList?_cons_self tc Y
+  rw [h.roots, ffx_findList?_append_of_not_mem _ _ _ (h.not_mem_X _ (handle_mem_handles_ff tc))]
+  exact ffx_findList?_cons_self tc Y
 
 theorem get?_rest (h : RootAt f X tc Y) {p : Nat} (hp : p ∈ handlesList (X ++ Y)) :
     f.get? p = findList? p (X ++ Y) := by
@@ -71,7 +71,7 @@ theorem get?_rest (h : RootAt f X tc Y) {p : Nat} (hp : p ∈ handlesList (X ++ 
   rw [h.roots]
   by_cases hX : findList? p X = none
   · rw [findList?_append_of_none _ _ _ hX, findList?_append_of_none _ _ _ hX,
-      findList?_cons_of_not_mem _ _ _ hn]
+      ffx_findList?_cons_of_not_mem _ _ _ hn]
   · cases hx : findList? p X with
     | none => exact absurd hx hX
     | some s =>
@@ -94,11 +94,11 @@ theorem ctx?_self (h : RootAt f X tc Y) : f.ctx? tc.handle = none := by
   intro r hr
   rw [h.roots, List.mem_append, List.mem_cons] at hr
   rcases hr with hr | rfl | hr
-  · apply ctxBelow_none_of_not_mem'
+  · apply ffx_ctxBelow_none_of_not_mem'
     intro hm
     exact h.not_mem_X _ (handle_mem_handles_ff tc) (mem_handlesList_ff.2 ⟨r, hr, hm⟩)
-  · exact ctxBelow_none_of_not_mem _ _ h.handle_not_mem_kids
-  · apply ctxBelow_none_of_not_mem'
+  · exact ffx_ctxBelow_none_of_not_mem _ _ h.handle_not_mem_kids
+  · apply ffx_ctxBelow_none_of_not_mem'
     intro hm
     exact h.not_mem_Y _ (handle_mem_handles_ff tc) (mem_handlesList_ff.2 ⟨r, hr, hm⟩)
 
@@ -133,7 +133,7 @@ theorem ancestors_rest (h : RootAt f X tc Y) {p : Nat} (hp : p ∈ handlesList (
     tc.handle ∉ f.ancestors p := by
   have hn := h.rest_not_mem_tc hp
   unfold Forest.ancestors
-  rw [h.roots, List.findSome?_append, List.findSome?_cons, ancestorsOf_none_of_not_mem p tc hn]
+  rw [h.roots, List.findSome?_append, List.findSome?_cons, ffx_ancestorsOf_none_of_not_mem p tc hn]
   intro hmem
   -- the answer comes from X or Y
   have key : ∀ (Z : List HTree), (∀ r ∈ Z, r ∈ X ++ Y) → ∀ l, Z.findSome? (ancestorsOf p) = some l →
